@@ -1,7 +1,7 @@
 // C03 harness: ZixHash white-box (slot array, callback arguments), arbitrary hash codes per key
 #include "common.h"
 
-#include "../../repo/src/hash.c"
+#include "hash.c"  // found through -I <repo>/src
 
 #include <signal.h>
 #include <unistd.h>
